@@ -1,6 +1,6 @@
 package main
 
-// ctm: whole NONE/NONE streams against the extracted container model (Model/Container.v: header,
+// ctm: whole NONE/NONE and NONE/RANGE streams against the extracted container models (Model/Container.v, Model/ContainerG.v: header,
 // per-block frames with their nested bit stream, end marker): the stream bytes the Writer produces,
 // and what the model parses back from them.  Block hashes are computed here with the Go hashers and
 // handed to the model.
@@ -89,17 +89,21 @@ func runCtm(c *Ctx, _ []string) {
 			hint = int64(len(data))
 		}
 		jobs := uint(r.Range(1, 3))
+		ent, entCode := "NONE", 0
+		if r.Bool() {
+			ent, entCode = "RANGE", 4
+		}
 		sink := &memSink{}
-		w, err := kio.NewWriter(sink, "NONE", "NONE", bs, jobs, ck, hint, false)
+		w, err := kio.NewWriter(sink, "NONE", ent, bs, jobs, ck, hint, false)
 		if err != nil {
 			continue
 		}
 		if _, err := w.Write(data); err != nil && len(data) > 0 {
-			c.Violation(map[string]any{"what": "Write failed on a NONE/NONE stream", "err": err.Error()})
+			c.Violation(map[string]any{"what": "Write failed on a NONE/" + ent + " stream", "err": err.Error()})
 			continue
 		}
 		if err := w.Close(); err != nil {
-			c.Violation(map[string]any{"what": "Close failed on a NONE/NONE stream", "err": err.Error()})
+			c.Violation(map[string]any{"what": "Close failed on a NONE/" + ent + " stream", "err": err.Error()})
 			continue
 		}
 		stream := sink.buf.Bytes()
@@ -128,25 +132,26 @@ func runCtm(c *Ctx, _ []string) {
 			hs = []string{"-"}
 		}
 		// Go reads it back
-		res := decompressTimed(stream, sCfg{"NONE", "NONE", bs, jobs, ck, hint, false}, 2, nil, 0, nil, 60*time.Second)
+		res := decompressTimed(stream, sCfg{"NONE", ent, bs, jobs, ck, hint, false}, 2, nil, 0, nil, 60*time.Second)
 		sum := 0
 		for _, x := range res.data {
 			sum += int(x)
 		}
 		p := fmt.Sprintf("P:ok:%d:%d:%d", nb, len(res.data), sum)
 		if res.err != nil || !res.eof || string(res.data) != string(data) {
-			c.Violation(map[string]any{"what": "NONE/NONE round trip failed", "err": fmt.Sprint(res.err), "len": len(data)})
+			c.Violation(map[string]any{"what": "NONE/" + ent + " round trip failed", "err": fmt.Sprint(res.err), "len": len(data)})
 			p = "P:fail"
 		}
 		dh := "-"
 		if len(data) > 0 {
 			dh = hex.EncodeToString(data)
 		}
-		fmt.Fprintf(cases, "ct %d %d %d ; %s ; %s ; %s\n", ck/32, bs, hint, strings.Join(hs, " "), dh, hex.EncodeToString(stream))
+		fmt.Fprintf(cases, "ct %d %d %d %d ; %s ; %s ; %s\n", ck/32, bs, hint, entCode, strings.Join(hs, " "), dh, hex.EncodeToString(stream))
 		fmt.Fprintf(gout, "S:%s %s\n", hex.EncodeToString(stream), p)
 		c.Count("evaluations", 1)
 		c.Hist("blocks", fmt.Sprint(nb))
 		c.Hist("checksum", fmt.Sprint(ck))
+		c.Hist("entropy", ent)
 		if nb > 0 {
 			nontrivial++
 		}
